@@ -102,3 +102,4 @@ def run(ctx):
     shared.owner_id_removal(ctx, '3o')
     shared.read_layering(ctx, '4')
     key_tail_check(ctx, '5')
+    shared.file_reads_shadowed(ctx, '6')
